@@ -318,13 +318,19 @@ func (a *app) shutdown() {
 	if a.ln != nil {
 		a.ln.Shutdown()
 	}
-	// Shutdown racing with a reconnect in progress can leave the new session
-	// open (client.listener.sess is replaced by the accepting goroutine while
-	// Shutdown closes the old one): sever whatever is left so that Accept returns.
-	src := a.host()
-	a.w.nw.ResetConns(func(s, d string) bool { return s == src })
 	if a.srv != nil {
-		a.srv.Close()
+		done := make(chan struct{})
+		go func() { a.srv.Close(); close(done) }()
+		select {
+		case <-done:
+		case <-time.After(5 * time.Second):
+			// the listener was shut down, yet its Accept is still blocked on a live
+			// connection to the server (a reconnect raced with Shutdown)
+			a.w.run.Fail("C16.while", "client-shutdown-left-connection-open", "app %d (%s): 5s after Listener.Shutdown returned its Accept is still blocked on an open connection to the server", a.id, a.endpoint)
+			src := a.host()
+			a.w.nw.ResetConns(func(s, d string) bool { return s == src })
+			<-done
+		}
 	}
 }
 
